@@ -329,9 +329,10 @@ class AbstractHasAxes(AbstractHasMetadata):
                 if ix.size == 0 and ix.dtype.kind == 'f':
                     ix = ix.astype(int) # empty list: default float dtype is not a valid index
 
-            # boolean indices are fine
+            # boolean indices are fine, as long as they match the axis
             if isinstance(ix, np.ndarray) and ix.dtype.kind == 'b':
-                pass
+                if ix.size != self.axes[dim].size:
+                    raise IndexError("boolean index of size {} does not match axis {} of size {}".format(ix.size, dim, self.axes[dim].size))
 
             # in case of label-based indexing, need to read the whole dimension
             # and look for the appropriate values
